@@ -201,6 +201,8 @@ package seat_manager
 //@   ensures [C17] err != nil ==> CNT(sm, sm.max) <= 1
 //@   ensures [C17] err == nil ==> CNT(sm, sm.max) >= 2
 //@   ensures [C17] old(CNT(sm, sm.max)) >= 2 ==> err == nil
+//@   -- a refused move leaves the button where it was
+//@   ensures [C17] err != nil ==> sm.dealer == old(sm.dealer)
 //@   -- the button goes to the first player clockwise from the previous dealer who could play: it moves, never backwards, never past one
 //@   ensures [C17] old(CNT(sm, sm.max)) >= 2 && old(sm.dealer) != nil ==> sm.dealer != nil && sm.dealer != old(sm.dealer)
 //@             && (forall s *Seat :: s == sm.dealer ==> old(PLAYABLE(s)))
